@@ -295,11 +295,23 @@ Definition cmp_z (op : cmpop) (x y : Z) : bool :=
 
 Fixpoint eval_cond (c : cfg) (s : st) (k : kcond) : option bool :=
   match k with
+  | KConst b => Some b
   | KNot a => option_map negb (eval_cond c s a)
   | KAnd a b =>                                   (* `and` short-circuits *)
       match eval_cond c s a with
       | Some true => eval_cond c s b
       | r => r
+      end
+  | KOr a b =>                                    (* `or` short-circuits *)
+      match eval_cond c s a with
+      | Some false => eval_cond c s b
+      | r => r
+      end
+  | KIte t a b =>                                 (* if t: return a  /  else-or-fall-through: b *)
+      match eval_cond c s t with
+      | Some true => eval_cond c s a
+      | Some false => eval_cond c s b
+      | None => None
       end
   | KCmp op a b =>
       match eval_expr c s a, eval_expr c s b with
@@ -313,34 +325,13 @@ Fixpoint eval_cond (c : cfg) (s : st) (k : kcond) : option bool :=
       | None => None
       end
   | KTruth e => option_map truthy (eval_expr c s e)
-  | KHasAttr _ _ => None
   | KNeedPing => None
+  | KOpaque => None
   end.
 
-Fixpoint eval_guards (c : cfg) (s : st) (gs : list kguard) (final : bool) : option bool :=
-  match gs with
-  | [] => Some final
-  | GRetFalseIf k :: r =>
-      match eval_cond c s k with
-      | Some true => Some false
-      | Some false => eval_guards c s r final
-      | None => None
-      end
-  | GNested o i :: r =>
-      match eval_cond c s o with
-      | Some true =>
-          match eval_cond c s i with
-          | Some true => Some false
-          | Some false => eval_guards c s r final
-          | None => None
-          end
-      | Some false => eval_guards c s r final
-      | None => None
-      end
-  end.
-
-Definition need_ping_src (c : cfg) (s : st) : option bool :=
-  eval_guards c s (fst need_send_ping_src) (snd need_send_ping_src).
+(* the need-ping predicate of the source: ONE condition tree obtained by symbolic execution of the
+   (normalised) method body, see tools/facts_C17.py *)
+Definition need_ping_src (c : cfg) (s : st) : option bool := eval_cond c s need_send_ping_src.
 
 (* ---- Configuration: role defaults and validators, from the generated field table ------------- *)
 
